@@ -17,6 +17,7 @@ import (
 	"runtime"
 	"sort"
 	"strings"
+	"time"
 
 	cfg "github.com/lianxiangcloud/linkchain/config"
 	"github.com/lianxiangcloud/linkchain/libs/common"
@@ -701,11 +702,13 @@ func Run(c *core.Ctx, focus string) {
 		Nontriv  int                      `json:"nontrivial"`
 		Viol     []core.Violation         `json:"violations"`
 		Sample   interface{}              `json:"sample"`
+		Planned  int                      `json:"planned"`
+		Cut      int                      `json:"cut_by_time_budget"`
 	}
 	var outs []childOut
 	for pi, procs := range []int{1, 8} {
 		arg, _ := json.Marshal(map[string]interface{}{"edges": edgeFile, "dir": filepath.Join(base, fmt.Sprintf("p%d", pi)), "procs": procs,
-			"walks": c.Pick(30, 400), "maxTours": c.Pick(250, 0), "focus": focus, "initBal": exportInitBal(exportCfg)})
+			"walks": c.Pick(30, 400), "maxTours": c.Pick(250, 0), "focus": focus, "initBal": exportInitBal(exportCfg), "budgetSec": c.Pick(240, 600)})
 		results, at, crash := c.RunChild(string(arg), c.MinutesT(6, 40))
 		if crash != "" {
 			if crash == "TIMEOUT" {
@@ -721,6 +724,7 @@ func Run(c *core.Ctx, focus string) {
 			var co childOut
 			if json.Unmarshal([]byte(r), &co) == nil {
 				outs = append(outs, co)
+				c.SetExtra(fmt.Sprintf("replay_process_%d", pi), map[string]int{"behaviours_planned": co.Planned, "behaviours_replayed": co.Results, "not_replayed_time_budget": co.Cut})
 				o.Traces += co.Results
 				o.Evaluations += co.Blocks
 				o.Distinct += co.Nontriv
@@ -797,6 +801,7 @@ func child(c *core.Ctx) {
 		Focus    string `json:"focus"`
 		InitBal  int    `json:"initBal"`
 		MaxTours int    `json:"maxTours"`
+		Budget   int    `json:"budgetSec"`
 	}
 	if json.Unmarshal([]byte(c.Child), &j) != nil {
 		os.Exit(3)
@@ -817,6 +822,10 @@ func child(c *core.Ctx) {
 		paths = paths[:j.MaxTours]
 	}
 	paths = append(paths, g.Walks(j.Walks, 10, rng)...)
+	// one seeded order for both processes: when the time budget cuts the run, both have replayed a
+	// common prefix of the same sequence
+	rng.Shuffle(len(paths), func(a, b int) { paths[a], paths[b] = paths[b], paths[a] })
+	started, planned, cut := time.Now(), len(paths), 0
 	out := map[string]interface{}{}
 	digests := map[string][]blockDigest{}
 	var viol []core.Violation
@@ -824,6 +833,10 @@ func child(c *core.Ctx) {
 	nBlocks, nAttacks, nExec, nontriv := 0, 0, 0, 0
 	var sample interface{}
 	for pi, p := range paths {
+		if j.Budget > 0 && time.Since(started) > time.Duration(j.Budget)*time.Second {
+			cut = len(paths) - pi
+			break
+		}
 		key := fmt.Sprint(p)
 		if seen[key] {
 			continue
@@ -866,6 +879,7 @@ func child(c *core.Ctx) {
 	}
 	out["digests"], out["behaviours"], out["blocks"], out["attacks"], out["executed"], out["nontrivial"], out["violations"], out["sample"] =
 		digests, len(seen), nBlocks, nAttacks, nExec, nontriv, viol, sample
+	out["planned"], out["cut_by_time_budget"] = planned, cut
 	bz, _ := json.Marshal(out)
 	var buf bytes.Buffer
 	buf.WriteString("RESULT ")
